@@ -23,7 +23,7 @@ func (p *Path) render(t Term, depth int) string {
 	if depth > 14 {
 		return unique(t)
 	}
-	sub := func(v ssa.Value) string { return p.render(Term{v, t.F}, depth+1) }
+	sub := func(v ssa.Value) string { return p.render(t.Sub(v), depth+1) }
 	switch x := t.V.(type) {
 	case *ssa.Parameter:
 		return x.Name()
@@ -190,14 +190,14 @@ func (p *Path) Fields(lit Term) map[string]Term {
 	}
 	for _, ev := range p.Events {
 		st, ok := ev.Instr.(*ssa.Store)
-		if !ok || ev.F != lit.F {
+		if !ok || ev.F != lit.F || ev.E != lit.E {
 			continue
 		}
 		fa, ok := st.Addr.(*ssa.FieldAddr)
 		if !ok || fa.X != ssa.Value(al) {
 			continue
 		}
-		out[fieldName(al.Type(), fa.Field)] = p.Resolve(Term{st.Val, ev.F})
+		out[fieldName(al.Type(), fa.Field)] = p.Resolve(ev.Term(st.Val))
 	}
 	return out
 }
@@ -229,10 +229,10 @@ func (p *Path) FactOf(c Cond) Fact {
 		if !ok || u.Op != token.NOT {
 			break
 		}
-		t, val = p.Resolve(Term{u.X, t.F}), !val
+		t, val = p.Resolve(t.Sub(u.X)), !val
 	}
 	if bo, ok := t.V.(*ssa.BinOp); ok {
-		l, r := p.render(Term{bo.X, t.F}, 0), p.render(Term{bo.Y, t.F}, 0)
+		l, r := p.render(t.Sub(bo.X), 0), p.render(t.Sub(bo.Y), 0)
 		op := bo.Op
 		switch op {
 		case token.NEQ:
@@ -244,14 +244,14 @@ func (p *Path) FactOf(c Cond) Fact {
 		}
 		if op == token.EQL && r < l {
 			// constants on the right, otherwise alphabetical
-			if _, isC := p.Resolve(Term{bo.Y, t.F}).V.(*ssa.Const); !isC {
+			if _, isC := p.Resolve(t.Sub(bo.Y)).V.(*ssa.Const); !isC {
 				l, r = r, l
 			}
 		}
 		if op == token.EQL {
-			if _, isC := p.Resolve(Term{bo.X, t.F}).V.(*ssa.Const); isC {
-				if _, isC2 := p.Resolve(Term{bo.Y, t.F}).V.(*ssa.Const); !isC2 {
-					l, r = p.render(Term{bo.Y, t.F}, 0), p.render(Term{bo.X, t.F}, 0)
+			if _, isC := p.Resolve(t.Sub(bo.X)).V.(*ssa.Const); isC {
+				if _, isC2 := p.Resolve(t.Sub(bo.Y)).V.(*ssa.Const); !isC2 {
+					l, r = p.render(t.Sub(bo.Y), 0), p.render(t.Sub(bo.X), 0)
 				}
 			}
 		}
